@@ -172,6 +172,18 @@ pub fn gen_script(t: &mut Tape, gates: &Gates, max_len: usize) -> Script {
         let d = crate::props::c15::gen_doc(&mut Tape::new(&sub), gates);
         pool.push(d.text);
     }
+    // a syntax error whose offending token is a long literal of multi-byte characters, in several
+    // contexts and byte alignments (a diagnostic message quotes the text it found)
+    for _ in 0..2 {
+        let sub: Vec<u8> = crate::tape::derived(&[t.byte(), 0x4c], 8);
+        let mut st = Tape::new(&sub);
+        let ctx = *st.pick(&["", "TYPE\n", "PROGRAM p\nVAR\nx : INT := 1 ", "PROGRAM p\nVAR\nx : INT;\nEND_VAR\nx := 1 ", "FUNCTION_BLOCK f\nVAR\n", "PROGRAM p\nVAR\nx : INT;\nEND_VAR\nx := "]);
+        let q = *st.pick(&["'", "\""]);
+        let lead = "x".repeat(st.below(4));
+        let ch = *st.pick(&["\u{e4}", "\u{20ac}", "\u{1f600}", "\u{e9}\u{20ac}"]);
+        let n = *st.pick(&[5usize, 40, 120, 300]);
+        pool.push(format!("{}{}{}{}{}\n", ctx, q, lead, ch.repeat(n), q));
+    }
     // texts that end too early, with and without trailing blank space, and every text also with its
     // trailing blank space removed / extended (a document "equal up to trailing blanks" is another
     // document: diagnostics at the end of input move)
